@@ -63,7 +63,7 @@ def cb_run(tier, seed, cfgs):
     defs_path, metas, capdir = capture(defs, "cb")
     tla_defs = [json.loads(l) for l in open(defs_path)]
     rng = random.Random(seed + 13)
-    maxlen = 5 if tier == "quick" else 7
+    maxlen = 5 if tier == "quick" else 6
     nchars = 5 if tier == "quick" else 6
     by_id = {m["id"]: m for m in metas}
     char_bytes = {}
@@ -100,7 +100,7 @@ def cb_run(tier, seed, cfgs):
     res = run_tlc("Callbacks.tla", "Callbacks.cfg", {"DEFS": p, "MAXLEN": str(maxlen)}, workers=8, metaname="cb", xss="512m", timeout=6000)
     if not res["ok"]:
         raise ToolError("Callbacks.tla: SkipTransparent violated at specification level:\n" + res["out"][-3000:])
-    runs = [r[2] for r in tlc_records(res["out"]) if r[0] == "CBRUN"]
+    runs = [r[2] for r in tlc_records(res) if r[0] == "CBRUN"]
     log("[cb] TLC %d distinct states, %d behaviours, %.1fs" % (res["distinct"], len(runs), res["wall"]))
     bins = build_subjects(metas, cfgs, "cb")
     meta_by_idx = {m["idx"]: m for m in metas}
